@@ -67,7 +67,7 @@ theorem digitsLE_length_of_bits {v : Nat} (h : v2BitsEnough v = true) :
     exact (digitsLE_length_eq_iff 2048 (by omega) v 23).mpr
       ⟨by rw [pow2048_23]; exact h1, by rw [pow2048_24]; exact h2⟩
 
-theorem ofDigitsBE_lt (r : Nat) (hr : 2 ≤ r) (ds : List Nat) (h : ∀ d ∈ ds, d < r) :
+theorem ofDigitsBE_lt_mn (r : Nat) (hr : 2 ≤ r) (ds : List Nat) (h : ∀ d ∈ ds, d < r) :
     ofDigitsBE r ds < r ^ ds.length := by
   rw [ofDigitsBE_eq]
   have := Nat.ofDigits_lt_base_pow_length (b := r) (l := ds.reverse) (by omega)
